@@ -556,7 +556,8 @@ fn run_c10(cx: &mut Cx)
 / * \" ' \\ u { } 0 x a ; : . , ( LF TAB 7F C3 A9 FF, model digests compared per block and bisected; plus random inputs \
 (mutated assembly snippets, fragment concatenations, random bytes; up to ~300 bytes). On every input: real Tokenizer and real Parser \
 under catch_unwind; oracle: no panic, at most the last item an error, three further next() calls yield nothing, \
-tokenizer error implies parser error. non-trivial = at least one token produced; distinct = distinct canonical token streams".to_owned();
+tokenizer error implies parser error; every 8th random input and every byte-order-mark program also through the parser call by call: \
+the real iterator called (items + 3) times against the call-by-call model Parse.next on the real token stream (model.parse.next). non-trivial = at least one token produced; distinct = distinct canonical token streams".to_owned();
 	if let Some(input) = cx.replay.clone()
 	{
 		match input.split(' ').collect::<Vec<_>>().as_slice()
@@ -566,6 +567,11 @@ tokenizer error implies parser error. non-trivial = at least one token produced;
 				let bytes = unhex(h).unwrap();
 				let reply = cx.model.ask(&format!("lex tok {}", hex(&bytes)));
 				c10_single(cx, &bytes, &reply);
+			},
+			["calls", h] if unhex(h).is_some() =>
+			{
+				let bytes = unhex(h).unwrap();
+				crate::parse::check_calls(cx, &[&bytes[..]]);
 			},
 			["deep", kind @ ("line" | "block"), n] if n.parse::<usize>().is_ok() => deep_case(cx, kind, n.parse().unwrap()),
 			["peek", h, script] if unhex(h).is_some() && script.chars().all(|c| c == 'n' || c == 'p' || c.is_ascii_digit()) =>
@@ -598,6 +604,9 @@ tokenizer error implies parser error. non-trivial = at least one token produced;
 		let lines: Vec<String> = inputs.iter().map(|b| format!("lex tok {}", hex(b))).collect();
 		let replies = cx.model.ask_many(&lines);
 		for (b, r) in inputs.iter().zip(replies.iter()) {c10_single(cx, b, r);}
+		// the parser half, call by call: the real iterator for (items + 3) calls against `Parse.next` (every 8th input)
+		let sample: Vec<&[u8]> = inputs.iter().step_by(8).map(|b| &b[..]).collect();
+		crate::parse::check_calls(cx, &sample);
 		done += n;
 	}
 	cx.report.hit_n("random / mutated inputs", nrand as u64);
@@ -619,6 +628,8 @@ tokenizer error implies parser error. non-trivial = at least one token produced;
 		let lines: Vec<String> = inputs.iter().map(|b| format!("lex tok {}", hex(b))).collect();
 		let replies = cx.model.ask_many(&lines);
 		for (b, r) in inputs.iter().zip(replies.iter()) {c10_single(cx, b, r);}
+		let sample: Vec<&[u8]> = inputs.iter().map(|b| &b[..]).collect();
+		crate::parse::check_calls(cx, &sample);
 		cx.report.hit_n("programs with byte order marks / stray control and space characters", inputs.len() as u64);
 	}
 	for s in ["/* x */ \u{e9}", "\"a\nb\"", "mov r0, 10 \"ab\" \"x"]
